@@ -335,7 +335,7 @@ Proof.
   destruct (r_params_ok r); reflexivity.
 Qed.
 
-(* ---- the two credential shapes are what Model/Auth.v's checkAuth admits for them ---- *)
+(* ---- the two credential shapes are treated by Model/Auth.v's checkAuth in the same way ---- *)
 
 Definition good_token (u level : N) (now : Z) : token :=
   {| t_signer_trusted := true; t_alg_allowed := true; t_tampered := false; t_iss_ok := true;
